@@ -66,6 +66,7 @@ def one_(m, repo, tests):
 def main():
     args = sys.argv[1:]
     jobs, repo, lo, hi, tests = 12, "/repo", 0, 10**9, True
+    idset = None
     while args:
         a = args.pop(0)
         if a == "-j": jobs = int(args.pop(0))
@@ -73,8 +74,10 @@ def main():
         elif a == "--ids":
             lo, hi = [int(x) for x in args.pop(0).split("-")]
         elif a == "--no-tests": tests = False
+        elif a == "--idfile":
+            idset = set(int(x) for x in open(args.pop(0)).read().split())
     ms = json.loads(subprocess.run([os.path.join(BIN, "mutate"), "-dir", repo], capture_output=True, text=True).stdout)
-    ms = [m for m in ms if lo <= m["id"] <= hi]
+    ms = [m for m in ms if lo <= m["id"] <= hi and (idset is None or m["id"] in idset)]
     out = open(os.path.join(os.environ.get("SWEEP_OUT", os.path.join(VERIF, "sweep")), "results.jsonl"), "a")
     n = 0
     with cf.ThreadPoolExecutor(max_workers=jobs) as ex:
